@@ -118,10 +118,10 @@ func checkC04(c *Check) {
 	p := c.P
 	c.Explanation = "C04 (structural clauses): in the tree listener every store of a fresh (empty) container into a container field of the shared module tree (Module.Apps, Application.Types/Endpoints/Views/Wrapped/Attrs/Mixin2, Type.Attrs, Endpoint.Attrs/Stmt/Param, AttrDefs) is control-dependent on that same location being nil, and every insertion of a freshly allocated element into Apps/Types/Endpoints/Views is control-dependent on a failed look-up of the same key — otherwise re-opening a declaration in another block or file discards what the earlier block declared; the kinds that are replaced on re-declaration by design are listed as exceptions, one per callback; one listener (hence one module) is walked over every file of the closure and its module is what the compile returns; when a type is re-opened the field map bound to the listener is the existing one. Independence from block order and import order is not decided."
 	c.Assumptions = append(c.Assumptions, "s.currentApp()/typemap accessors return the same object within one callback")
-	pk := p.Pkg(parsePkg)
+	_ = p.Pkg(parsePkg)
 	nC, nE := 0, 0
 	for _, f := range p.RepoFuncs() {
-		if fnPkgPath(f) != pk.PkgPath || !strings.HasSuffix(p.fnFile(f), "/listener_impl.go") {
+		if !isListenerCode(p, f) {
 			continue
 		}
 		eachInstr(f, func(_ *ssa.BasicBlock, i ssa.Instruction) {
@@ -137,6 +137,21 @@ func checkC04(c *Check) {
 				}
 				fresh, what := isFreshContainer(x.Val)
 				if !fresh {
+					// `x.F = orEmpty(x.F)` / `x.F = mergedInto(x.F, new)`: a helper that is
+					// handed the existing content decides; it must give it back unless it is nil
+					if call, isCall := x.Val.(*ssa.Call); isCall {
+						if h := call.Call.StaticCallee(); h != nil && isRepoFn(h) && len(h.Blocks) > 0 {
+							for ai, a := range call.Call.Args {
+								if exprKey(a, 0) == "*"+exprKey(x.Addr, 0) && ai < len(h.Params) {
+									nC++
+									key := fmt.Sprintf("%s|%s = %s(existing)", fnName(f), name, h.Name())
+									c.Cond(keepsExisting(h, h.Params[ai]), "INIT-IF-ABSENT", key, p.pos(x.Pos()),
+										"the helper returns the existing container whenever it is not nil",
+										fmt.Sprintf("%s is overwritten with the result of %s, which does not hand the existing container back on every path where it is not nil: re-opening the declaration discards what an earlier block declared", name, h.Name()))
+								}
+							}
+						}
+					}
 					return
 				}
 				// a call that receives the existing content merges rather than replaces
@@ -166,6 +181,15 @@ func checkC04(c *Check) {
 					// through a local alias: types := s.currentApp().Types
 					if u, isU := unspill(x.Map).(*ssa.UnOp); isU {
 						own, fld, _, ok = loadedField(u)
+					}
+					// `types := app.Types; if types == nil { types = map…{}; app.Types = types }`:
+					// a phi of the loaded field and the map just created for it
+					if ph, isPhi := x.Map.(*ssa.Phi); isPhi {
+						for _, e := range ph.Edges {
+							if o2, f2, _, ok2 := loadedField(unspill(e)); ok2 && o2 != nil {
+								own, fld, ok = o2, f2, true
+							}
+						}
 					}
 					if !ok || own == nil || own.Obj().Pkg() == nil || own.Obj().Pkg().Path() != syslPkg {
 						return
@@ -325,7 +349,7 @@ func c04TypeReopen(c *Check) {
 		eachInstr(f, func(_ *ssa.BasicBlock, i ssa.Instruction) {
 			if st, ok := i.(*ssa.Store); ok {
 				if own, fld, _, ok := fieldOfAddr(st.Addr); ok && own != nil && fld == "AttrDefs" && (own.Obj().Name() == "Type_Relation" || own.Obj().Name() == "Type_Tuple") {
-					if _, f2, _, ok := loadedField(st.Val); ok && f2 == "typemap" {
+					if o2, _, _, ok := loadedField(st.Val); ok && isListenerFieldMap(o2, st.Val.Type()) {
 						creates = true
 					}
 				}
@@ -343,7 +367,7 @@ func c04TypeReopen(c *Check) {
 			if !ok {
 				return
 			}
-			if _, fld, _, ok := fieldOfAddr(st.Addr); !ok || fld != "typemap" {
+			if o2, _, _, ok := fieldOfAddr(st.Addr); !ok || !isListenerFieldMap(o2, st.Val.Type()) {
 				return
 			}
 			if derives(st.Val, func(v ssa.Value) bool {
@@ -418,7 +442,7 @@ func c04KeepOnReopen(c *Check) {
 		return rec(v, 0)
 	}
 	for _, f := range p.RepoFuncs() {
-		if fnPkgPath(f) != pk.PkgPath || !strings.HasSuffix(p.fnFile(f), "/listener_impl.go") {
+		if !isListenerCode(p, f) {
 			continue
 		}
 		if !(strings.HasPrefix(f.Name(), "Enter") || strings.HasPrefix(f.Name(), "Exit")) {
@@ -540,10 +564,10 @@ func emptinessGuarded(f *ssa.Function, addr ssa.Value, at ssa.Instruction) bool 
 // dropped then depends on the order in which blocks are processed.
 func c04NoDropOnAbsent(c *Check) {
 	p := c.P
-	pk := p.Pkg(parsePkg)
+	_ = p.Pkg(parsePkg)
 	n := 0
 	for _, f := range p.RepoFuncs() {
-		if fnPkgPath(f) != pk.PkgPath || !strings.HasSuffix(p.fnFile(f), "/listener_impl.go") {
+		if !isListenerCode(p, f) {
 			continue
 		}
 		if !(strings.HasPrefix(f.Name(), "Enter") || strings.HasPrefix(f.Name(), "Exit")) {
@@ -629,4 +653,128 @@ func c04NoDropOnAbsent(c *Check) {
 		})
 	}
 	c.Counts["declaration_lookups_with_absent_test"] = n
+}
+
+// isListenerCode: f belongs to the tree listener of pkg/parse — a method of
+// TreeShapeListener, a closure of one, or a function declared in a file that
+// holds such methods (its helpers). Found by receiver, not by file name, so that
+// moving call-backs to another file changes nothing.
+var listenerFiles map[string]bool
+
+func isListenerCode(p *Program, f *ssa.Function) bool {
+	if fnPkgPath(f) != repoMod+"/"+parsePkg || strings.HasSuffix(p.fnFile(f), "_test.go") {
+		return false
+	}
+	isMethod := func(g *ssa.Function) bool {
+		for g.Parent() != nil {
+			g = g.Parent()
+		}
+		if r := g.Signature.Recv(); r != nil {
+			if n := namedOf(r.Type()); n != nil && n.Obj().Name() == "TreeShapeListener" {
+				return true
+			}
+		}
+		return false
+	}
+	if listenerFiles == nil {
+		listenerFiles = map[string]bool{}
+		for _, g := range p.RepoFuncs() {
+			if fnPkgPath(g) == repoMod+"/"+parsePkg && isMethod(g) && (strings.HasPrefix(g.Name(), "Enter") || strings.HasPrefix(g.Name(), "Exit")) {
+				listenerFiles[p.fnFile(g)] = true
+			}
+		}
+	}
+	return isMethod(f) || listenerFiles[p.fnFile(f)]
+}
+
+// isListenerFieldMap: a field of the tree listener holding the field map of the
+// type being declared (map from field name to *sysl.Type), whatever it is called.
+func isListenerFieldMap(owner *types.Named, t types.Type) bool {
+	if owner == nil || owner.Obj().Name() != "TreeShapeListener" {
+		return false
+	}
+	m, ok := t.Underlying().(*types.Map)
+	return ok && isStringType(m.Key()) && typeIs(m.Elem(), syslPkg, "Type")
+}
+
+// keepsExisting: every return of h gives back its parameter prm — as it is, or
+// passed through helpers that keep it (an "or empty" helper, an add-one-entry
+// helper called in a loop) — except on paths taken only when prm is nil.
+func keepsExisting(h *ssa.Function, prm *ssa.Parameter) bool {
+	return keepsExistingD(h, prm, 0)
+}
+
+func keepsExistingD(h *ssa.Function, prm *ssa.Parameter, depth int) bool {
+	if depth > 3 {
+		return false
+	}
+	nilOnly := map[*ssa.BasicBlock]bool{}
+	if prm.Referrers() != nil {
+		for _, r := range *prm.Referrers() {
+			bin, ok := r.(*ssa.BinOp)
+			if !ok || (bin.Op != token.EQL && bin.Op != token.NEQ) || !(isNilConst(bin.X) || isNilConst(bin.Y)) {
+				continue
+			}
+			for _, br := range branchesOn(bin) {
+				nilSucc, other := br.TrueSucc, br.FalseSucc
+				if bin.Op == token.NEQ {
+					nilSucc, other = other, nilSucc
+				}
+				if len(nilSucc.Preds) != 1 {
+					continue
+				}
+				for _, b := range h.Blocks {
+					if (b == nilSucc || nilSucc.Dominates(b)) && !other.Dominates(b) {
+						nilOnly[b] = true
+					}
+				}
+			}
+		}
+	}
+	// keeps(v, at): v carries the existing container (or we are on a nil-only path)
+	seen := map[ssa.Value]bool{}
+	var keeps func(v ssa.Value, at *ssa.BasicBlock) bool
+	keeps = func(v ssa.Value, at *ssa.BasicBlock) bool {
+		if v == ssa.Value(prm) || nilOnly[at] {
+			return true
+		}
+		if seen[v] {
+			return true // loop-carried: decided by the other edges
+		}
+		seen[v] = true
+		switch x := v.(type) {
+		case *ssa.Phi:
+			for k, e := range x.Edges {
+				if !keeps(e, x.Block().Preds[k]) {
+					return false
+				}
+			}
+			return true
+		case *ssa.Call:
+			g := x.Call.StaticCallee()
+			if g == nil || !isRepoFn(g) || len(g.Blocks) == 0 {
+				return false
+			}
+			for ai, a := range x.Call.Args {
+				if ai < len(g.Params) && types.Identical(a.Type(), prm.Type()) && keeps(a, x.Block()) && keepsExistingD(g, g.Params[ai], depth+1) {
+					return true
+				}
+			}
+			return false
+		}
+		return false
+	}
+	n := 0
+	for _, b := range h.Blocks {
+		ret, ok := b.Instrs[len(b.Instrs)-1].(*ssa.Return)
+		if !ok || b == h.Recover || len(ret.Results) == 0 {
+			continue
+		}
+		n++
+		vals, cell := returnValues(ret)
+		if cell[0] || !keeps(vals[0], b) {
+			return false
+		}
+	}
+	return n > 0
 }
